@@ -116,7 +116,13 @@ func Draw(t *rapid.T, o Opts) (*Bundle, map[string]bool) {
 	np := rapid.IntRange(1, max(1, o.MaxPackages)).Draw(t, "npkgs")
 	pw := rapid.Permutation(pkgWords).Draw(t, "pkgwords")
 	for i := 0; i < np; i++ {
-		p := &Package{Name: fmt.Sprintf("%s.%s.v1", pw[2*i], pw[2*i+1])}
+		second := pw[2*i+1]
+		if i > 0 && rapid.IntRange(0, 2).Draw(t, "sharedsegment") == 0 {
+			// two packages whose default import name (last-but-one segment) is the same
+			second = pkgWordOf(g.b.Packages[rapid.IntRange(0, i-1).Draw(t, "sharewith")].Name)
+			g.cls("shared-package-word")
+		}
+		p := &Package{Name: fmt.Sprintf("%s.%s.v1", pw[2*i], second)}
 		nf := rapid.IntRange(1, max(1, o.MaxFiles)).Draw(t, "nfiles")
 		for k := 0; k < nf; k++ {
 			f := &File{Path: fmt.Sprintf("%s/%s.j5s", strings.ReplaceAll(p.Name, ".", "/"), []string{"main", "extra", "more"}[k])}
@@ -245,10 +251,20 @@ func (g *gen) refTo(ti *typeInfo) *Ref {
 		}
 		if imp == nil {
 			imp = &Import{Package: ti.pkg}
-			switch rapid.IntRange(0, 2).Draw(t, "importstyle") {
-			case 1:
-				imp.Alias = "im" + pkgWordOf(ti.pkg)
+			// the default name is taken when an earlier import of this file (or the
+			// file's own package) already answers to it: then an alias is required
+			taken := pkgWordOf(g.curPkg.Name) == pkgWordOf(ti.pkg)
+			for _, x := range g.curFile.Imports {
+				if x.Alias == "" && pkgWordOf(x.Package) == pkgWordOf(ti.pkg) {
+					taken = true
+				}
+			}
+			if taken || rapid.IntRange(0, 2).Draw(t, "importstyle") == 1 {
+				imp.Alias = fmt.Sprintf("im%s%d", pkgWordOf(ti.pkg), len(g.curFile.Imports))
 				g.cls("import-alias")
+				if taken {
+					g.cls("import-alias-forced")
+				}
 			}
 			g.curFile.Imports = append(g.curFile.Imports, imp)
 		}
